@@ -301,13 +301,17 @@ def total_float(g, iters=400, tol=1e-13):
     return V, False
 
 
-def shrink_grammar(g, fails):
-    """greedy: drop rules, then shorten bodies, while fails(g) stays true"""
+def shrink_grammar(g, fails, budget=40):
+    """greedy: drop rules while fails(g) stays true (at most `budget` calls of fails)"""
     g = {"S": g["S"], "nT": g["nT"], "rules": [list(r) for r in g["rules"]]}
     changed = True
+    calls = 0
     while changed:
         changed = False
         for i in range(len(g["rules"])):
+            calls += 1
+            if calls > budget:
+                return g
             h = {"S": g["S"], "nT": g["nT"], "rules": g["rules"][:i] + g["rules"][i + 1:]}
             try:
                 if h["rules"] and fails(h):
